@@ -344,6 +344,10 @@ def fp_midpoint_worker(case):
             res['nontrivial'] += 1
             bad, vals = None, None
             if pr.status == 'exc':
+                if isinstance(pr.exc, (TypeError, AttributeError, NotImplementedError)) and 'FPV' in str(pr.exc):
+                    # an operation the Float64 model does not have (round, sqrt, ...): a limit of the harness, not a
+                    # verdict about the code (the real-valued exploration still decides tiling and ancestry)
+                    raise Inconclusive('operation outside the Float64 model: %r at %s' % (pr.exc, pr.tb[-1]))
                 _, m = eng.feasible(True)
                 bad = '%r at %s' % (pr.exc, pr.tb[-1])
             elif not pr.value[0]:
